@@ -396,6 +396,7 @@ def eval_declaration_split(ctx, R="C13.1"):
         "build_substitution": lambda a: V("Statement", "Substitution", meta=a[0], var=a[1], access=a[2], op=a[3], rhe=a[4]),
         "build_multi_substitution": lambda a: V("Statement", "MultiSubstitution", meta=a[0], lhe=a[1], op=a[2], rhe=a[3]),
         "build_tuple": lambda a: V("Expression", "Tuple", meta=a[0], values=a[1]),
+        "build_variable": lambda a: V("Expression", "Variable", meta=a[0], name=a[1], access=a[2]),
         "build_initialization_block": lambda a: V("Statement", "InitializationBlock", meta=a[0], xtype=a[1], initializations=a[2]),
     }
     mh = []
@@ -419,7 +420,7 @@ def eval_declaration_split(ctx, R="C13.1"):
             return ("assign", st[3].get("var"), "op" if st[3].get("op") is OP else "other-op", st[3].get("rhe")[1] if isinstance(st[3].get("rhe"), tuple) else None)
         if st[2] == "MultiSubstitution":
             l_ = st[3].get("lhe")
-            names = [v_[3].get("name") for v_ in (listed(l_[3].get("values")) or [])] if isinstance(l_, tuple) and len(l_) > 3 else None
+            names = [(v_[3].get("name") if isinstance(v_, tuple) and len(v_) > 3 and v_[0] == "V" else None) for v_ in (listed(l_[3].get("values")) or [])] if isinstance(l_, tuple) and len(l_) > 3 else None
             return ("assign-tuple", tuple(names or ()), "op" if st[3].get("op") is OP2 else "other-op", st[3].get("rhe")[1] if isinstance(st[3].get("rhe"), tuple) else None)
         return (st[2],)
 
